@@ -2,6 +2,7 @@ import OPM.Model.Merge
 import OPM.Lemmas.Interp
 import OPM.Properties.C01
 import OPM.Lemmas.InterpC14
+import OPM.Lemmas.InterpC14Run
 /-!
 # C14 Injected code runs once in the current scope, even across edits
 
@@ -106,6 +107,20 @@ theorem injected_body_starts_at_most_once (p : Prog) (n : Nat)
     genStartsI p n ss [.wrapEnter n] ≤ 1 :=
   genStartsI_early p n hnc hord hn ss _ (Or.inl rfl)
 
+/-- **At most once in a whole run.** Program without `Call macro`, numbered in tree order; the injected
+    wrapper `n` is nobody's child (it is not part of the program); code is injected in a state whose
+    generators have gids below the counter and do not mention `n` (`readyFor`).  Then over *any* run of
+    ticks (with arbitrary clock / tag inputs — a pause or hold is a stretch without ticks), command
+    completions, cancel and force requests, the injected body is started at most once in total:
+    no second generator is ever registered for `n`, no other generator ever reaches it, and its own
+    generator starts it at most once. -/
+theorem injected_body_starts_at_most_once_in_a_run (p : Prog) (n : Nat)
+    (hnc : noCalls p = true) (hord : ordered p = true)
+    (hch : ∀ k, n ∉ (node p k).children) (hn : isInjected p n = true)
+    (s : St) (hs : readyFor n s = true) (ops : List ROp) :
+    runStarts p n (inject p s n) ops ≤ 1 :=
+  run_bodyStarts_le_one p n hnc hord hch hn s hs ops
+
 /-- The clause about edits, over the model: an interrupt that is registered before an accepted live
     edit is still registered (under the same line id) afterwards. -/
 def C14_full_edit : Prop :=
@@ -161,6 +176,30 @@ example : ∀ k, wD k = true → ∀ c ∈ (node wProg k).children, wD c = true 
   intro k hk
   have : k = 2 ∨ k = 3 := by simpa [wD] using hk
   rcases this with e | e <;> subst e <;> decide +kernel
+
+/-- the hypotheses of `injected_body_starts_at_most_once_in_a_run` hold of the witness, and the bound
+    is attained: over eight ticks the injected body starts exactly once -/
+def wBefore : St :=
+  (List.range 3).foldl (fun s i => (tick wProg s ⟨(i : Nat) / 8, (i : Nat) / 8, 0, []⟩).1) (init wProg)
+
+example : ∀ k, 2 ∉ (node wProg k).children := by
+  intro k
+  rcases k with _ | _ | _ | _ | k
+  · decide
+  · decide
+  · decide
+  · decide
+  · have : node wProg (k + 4) = default := by
+      unfold node
+      simp only [wProg, Array.getD]
+      rw [dif_neg (by simp)]
+    rw [this]
+    exact List.not_mem_nil
+
+example : readyFor 2 wBefore = true ∧ wSt = inject wProg wBefore 2 ∧
+    runStarts wProg 2 (inject wProg wBefore 2)
+      ((List.range 8).map (fun i => ROp.tick ⟨(3 + i : Nat) / 8, (3 + i : Nat) / 8, 0, []⟩)) = 1 := by
+  refine ⟨by decide +kernel, rfl, by decide +kernel⟩
 
 def wTicksFrom (s : St) (from_ n : Nat) : St :=
   (List.range n).foldl (fun s i => (tick wProg s ⟨(from_ + i : Nat) / 8, (from_ + i : Nat) / 8, 0, []⟩).1) s
